@@ -615,4 +615,39 @@ def r7_no_rendering_memory(a, tier):
     return rep
 
 
-RULES = [r1_tables, r2_gating, r3_inclusion, r4_apply, r5_style_last, r6_gating_policy, r7_no_rendering_memory]
+def r8_no_shared_rendering_state(a, tier):
+    from .c10 import _is_mutable_container, _is_read_only_table
+    rep = RuleReport(
+        'C20.R8',
+        'what a styling call returns depends on its arguments and the colour policy it is given, not on earlier calls: in tatsu/ztyle and '
+        'tatsu/util/tty.py every module-level mutable container is a constant table (never stored into, mutated, aliased or handed out - derived, '
+        'not listed), and no function is memoised with @cache / @lru_cache. A memo of composed styles keyed by less than all the arguments that '
+        'decide the output (the colour policy among them) hands one caller the escapes - or the plain text - of another',
+        floor=3,
+    )
+    n = 0
+    for m in a.p.modules.values():
+        if not (m.name.startswith('tatsu.ztyle') or m.name == 'tatsu.util.tty'):
+            continue
+        for name, val in m.assigns.items():
+            if name == '__all__' or not _is_mutable_container(val):
+                continue
+            n += 1
+            const = _is_read_only_table(a, m, name)
+            rep.add({'module_container': f'{m.name}.{name}', 'derived_constant_table': const})
+            if not const:
+                rep.fail(f'{m.name}.{name}', 'shared-rendering-state', f'{m.name}.{name} is a module-level container that functions of the styling package store into: '
+                         f'a rendering depends on what was rendered before (e.g. a style composed under one colour policy reused under another)', m.relpath)
+        for f in a.p.functions.values():
+            if f.module is m and any(d.split('.')[-1] in ('cache', 'lru_cache') for d in f.decorators):
+                n += 1
+                has_params = bool([p for p in f.params if p not in ('self', 'cls')])
+                rep.add({'memoised_function': f.qualname, 'takes_arguments': has_params})
+                if has_params:
+                    rep.fail(f.qualname, 'memoised-rendering', f'{f.qualname} is memoised: its result is shared by all later calls with equal (hash-equal) arguments, whatever the '
+                             f'colour policy or terminal state at that time', f.loc)
+    rep.add({'containers_and_memos_examined': n})
+    return rep
+
+
+RULES = [r1_tables, r2_gating, r3_inclusion, r4_apply, r5_style_last, r6_gating_policy, r7_no_rendering_memory, r8_no_shared_rendering_state]
